@@ -119,6 +119,47 @@ def check_index_decoded(p, report, classes, rule):
                        detail=f"{n_src} index source(s), all decoded on every path", nontrivial=n_src > 0)
 
 
+def check_member_classes(p, report, rule):
+    from ..paths import MustAnalysis, Const
+    f = p.get_method("AnnotatorEnsembleClassifier", "fit")
+    if f is None:
+        raise AnalysisError("AnnotatorEnsembleClassifier.fit vanished")
+
+    class Members(MustAnalysis):
+        def __init__(self, fnode):
+            super().__init__(fnode)
+            self.sites = {}
+
+        def gen(self, stmt):
+            if isinstance(stmt, ast.Expr) and isinstance(stmt.value, ast.Call) and isinstance(stmt.value.func, ast.Attribute) \
+                    and stmt.value.func.attr == "set_params" and any(k.arg == "classes" for k in stmt.value.keywords):
+                return ("cls:" + ast.unparse(stmt.value.func.value),)
+            return ()
+
+        def use(self, expr, state, stmt):
+            for c in ast.walk(expr):
+                if isinstance(c, ast.Call) and isinstance(c.func, ast.Attribute) and c.func.attr in ("fit", "partial_fit") \
+                        and not (isinstance(c.func.value, ast.Name) and c.func.value.id == "self") \
+                        and not (isinstance(c.func.value, ast.Call)):
+                    r = ast.unparse(c.func.value)
+                    key = r + ".classes"
+                    has = ("cls:" + r) in state.tokens
+                    not_none = Const(None) in state.facts.excluded.get(key, frozenset())
+                    rec = self.sites.setdefault(id(c), [c, True, ""])
+                    if not has and not not_none:
+                        rec[1] = False
+                        from ..paths import describe
+                        rec[2] = describe(state.facts)
+    m = Members(_it(f.node)).run()
+    for c, ok, why in m.sites.values():
+        report.add(rule, f.qual, f"`{norm_stmt(c, 60)}` fits a member that knows all classes", f"{f.file}:{c.lineno}", ok,
+                   detail="classes handed over or already set on every path" if ok else
+                   f"on the path where {why or 'always'} the member's classes may be None and no set_params(classes=...) "
+                   f"was executed: the member infers its classes from the labels of one annotator")
+    if not m.sites:
+        raise AnalysisError("AnnotatorEnsembleClassifier.fit: no member fit found")
+
+
 def run(p, report, tier):
     report.rule("R11.1", "in every predict of a project classifier a class *index* (result of rand_argmin/argmin/"
                 "argmax over costs or probabilities, choice over arange(len(classes_))) passes through "
@@ -294,6 +335,16 @@ def run(p, report, tier):
                                detail="sized by len(classes_)" if verdict else
                                "the counts are only as long as the largest observed class index + 1: predict_proba of the "
                                "fallback has fewer columns than classes_ whenever the last classes were not observed")
+    report.rule("R11.10", "every member of the annotator ensemble is fitted on the ensemble's class set: on each path "
+                "to `member.fit(...)` on which the member's own `classes` may still be None, "
+                "`member.set_params(classes=...)` has been executed (otherwise a member that has not seen every "
+                "class returns fewer probability columns than classes_)", floor=2)
+    check_member_classes(p, report, "R11.10")
+    report.rule("R11.9", "the vote counts every frequency-based classifier builds its probabilities on are finite and "
+                "non-negative: compute_vote_vectors zeroes the weights at missing labels AND at NaN confidences before "
+                "they are summed (shared with C17 R17.2)", floor=4)
+    from . import c17 as _c17
+    _c17.check_vote_weights(p, c01.Report_proxy(report, {"R17.2": "R11.9"}))
     report.assumptions += ["finiteness, non-negativity and row sums equal to one as numbers are not decided",
                            "the wrapped estimator's predict returns class labels and its predict_proba is row-normalised"]
 
@@ -370,7 +421,7 @@ def _is_norm_expr(e, tokens):
             return True  # delegation to the wrapped estimator / super()
         if n == "tile" and e.args:
             return _is_norm_expr(e.args[0], tokens) or _is_div_by_own_sum(e.args[0], tokens, need_axis=False)
-        if n == "full":
+        if n in ("full", "full_like"):
             fill = e.args[1] if len(e.args) > 1 else None
             for k in e.keywords:
                 if k.arg == "fill_value":
@@ -394,6 +445,9 @@ def _is_div_by_own_sum(e, tokens, need_axis=True):
     if not (isinstance(e, ast.BinOp) and isinstance(e.op, ast.Div)):
         return False
     num, den = e.left, e.right
+    # the row sum (axis 1, kept) was bound to a name first
+    if isinstance(den, ast.Name) and f"rowsum:{den.id}:{ast.unparse(num)}" in tokens:
+        return True
     return _is_row_sum_of(den, num, need_axis)
 
 
@@ -450,12 +504,17 @@ class _NormFlow(MustAnalysis):
                 tk.discard(f"norm:{v}")
                 tk.discard(f"part:{v}")
                 tk.discard(f"zeros:{v}")
+                for x in [x for x in tk if isinstance(x, str) and x.startswith("rowsum:")
+                          and (x.startswith(f"rowsum:{v}:") or x.endswith(f":{v}"))]:
+                    tk.discard(x)
                 if _is_norm_expr(e, tokens):
                     tk.add(f"norm:{v}")
                 elif isinstance(e, ast.Call) and c01.callname(e) == "zeros":
                     tk.add(f"zeros:{v}")
                 elif isinstance(e, ast.Call) and c01.callname(e) in ("sum", "nansum") and e.args:
                     self.sums[v] = ast.unparse(e.args[0])
+                    if _row_axis(e, False):
+                        tk.add(f"rowsum:{v}:{ast.unparse(e.args[0])}")
                 elif isinstance(e, ast.Call) and c01.callname(e) in ("sum",) and isinstance(e.func, ast.Attribute):
                     self.sums[v] = ast.unparse(e.func.value)
                 return tk
